@@ -1255,3 +1255,65 @@ def t_inline_self(facts, res, tier):
     res.inst("T-INLINE-SELF:push_code", True, {"pasted": f, "self_call_rejected": guarded})
     if not guarded:
         res.fail("T-INLINE-SELF:push_code", facts.where(fn, n), "push_code looks up the code of `%s` without first refusing the function under construction: an inline function that calls itself pastes its own unfinished code (branches whose labels come later) and check_branches() panics with 'Label not found'" % f)
+
+
+# ----------------------------------------------------------------------------- folding a compare away
+
+
+@rule("T-OPT-CMP-FOLD", floor=6,
+      text="optimize() deletes `CMP #m / BEQ` (and CPX, CPY) when the register holds a known immediate that differs from m, and `CMP #m / BNE` when it "
+           "holds the same one.  'The same' may be judged on the operand text (same text, same value); 'differs' may not - `#<table` and `#131` "
+           "are different texts for what may be the same byte - so the deleting condition of a BEQ arm compares numbers (both operands parsed), "
+           "never the two strings")
+def t_opt_cmp_fold(facts, res, tier):
+    fn = facts.fn("optimize", "AssemblyCode")
+    n = 0
+    numeric_fns = {}
+    for f in facts.fns:
+        if f["file"].endswith("/assemble.rs") and f["ret"].strip() == "bool":
+            ps = [p["name"] for p in f["params"] if "str" in (p.get("ty") or "") or "String" in (p.get("ty") or "")]
+            if len(ps) >= 2:
+                parsed = {simple_name(_innermost_recv(x)) for x in walk(f["body"]) if x.get("k") == "mcall" and x["method"] == "parse"}
+                numeric_fns[f["name"]] = all(p in parsed for p in ps[:2])
+    for node, env, doms in scoped(fn):
+        if node.get("k") != "if":
+            continue
+        sets = [x for x in walk(node["then"]) if x.get("k") == "assign" and simple_name(x["l"]) == "remove_both"]
+        if not sets:
+            continue
+        # which branch arm are we in?
+        arm = None
+        for d in doms:
+            if d[0] == "arm" and "mnemonic" in _norm(d[1]) and isinstance(d[2], dict) and d[2].get("k") == "path" and d[2]["segs"][-1] in ("BEQ", "BNE"):
+                arm = d[2]["segs"][-1]
+        cmp_ = None
+        for d in doms:
+            if d[0] == "cond" and d[2]:
+                m = re.search(r"mnemonic==AsmMnemonic::(CMP|CPX|CPY)", _norm(d[1]))
+                if m:
+                    cmp_ = m.group(1)
+        if arm is None or cmp_ is None:
+            continue
+        n += 1
+        key = "T-OPT-CMP-FOLD:%s+%s" % (cmp_, arm)
+        c = node["cond"]
+        textual_ne = [x for x in walk(c) if x.get("k") == "binary" and x["op"] == "!=" and "dasm_operand" in _norm(x)]
+        textual_eq = [x for x in walk(c) if x.get("k") == "binary" and x["op"] == "==" and "dasm_operand" in _norm(x)]
+        calls = [x for x in walk(c) if x.get("k") == "call" and x["func"].get("k") == "path" and x["func"]["segs"][-1] in numeric_fns]
+        res.inst(key, True, {"compare": cmp_, "branch": arm, "condition": _norm(c)[:120]})
+        if arm == "BEQ":
+            if textual_ne:
+                res.fail(key, facts.where(fn, node), "optimize() deletes `%s #m / BEQ` when the register's known operand text differs from the compare's (`%s`): two different texts (`#<arr` and `#131`) may be the same byte, and the deleted branch would have been taken" % (cmp_, _norm(textual_ne[0])[:60]))
+            elif not calls or not all(numeric_fns[x["func"]["segs"][-1]] for x in calls):
+                res.fail(key, facts.where(fn, node), "optimize() deletes `%s #m / BEQ` on a condition (`%s`) that is not a numeric comparison of the two immediates" % (cmp_, _norm(c)[:80]))
+        else:
+            if not textual_eq and not calls:
+                res.fail(key, facts.where(fn, node), "optimize() deletes `%s #m / BNE` without establishing that the register holds m" % cmp_)
+    if n == 0:
+        raise AnchorMissing("optimize(): compare folding (remove_both under CMP/CPX/CPY + BEQ/BNE) not found")
+
+
+def _innermost_recv(n):
+    while isinstance(n, dict) and n.get("k") in ("mcall", "index", "ref", "unary", "field"):
+        n = n.get("recv") or n.get("base") or n.get("e")
+    return n
